@@ -1,6 +1,6 @@
 (* The judge is sound: an observation that agrees with the model satisfies the property. *)
-From SC Require Import Base.Prelude Pages.Codec Pages.CodecProofs Pages.PagerCfg Pages.Pager Pages.C15Judge
-  Pages.PagerProofs Pages.WasteProofs Pages.PagerTable.
+From SC Require Import Base.Prelude Pages.Codec Pages.CodecProofs Pages.PagerCfg Pages.Pager Pages.Listing Pages.C15Judge
+  Pages.PagerProofs Pages.ListingProofs Pages.WasteProofs Pages.PagerTable.
 From Coq Require Import Sorted.
 
 Local Open Scope Z_scope.
@@ -21,7 +21,7 @@ Qed.
 
 Lemma agrees_keys s keys dropkey sizes raw0 tok extra obs :
   agrees (KKeys s keys dropkey sizes raw0 tok extra obs) = true ->
-  obs = key_chain (cfg_of s) keys dropkey sizes (WFirst tok extra).
+  obs = list_chain (resorts_of s) (cfg_of s) keys dropkey sizes (WFirst tok extra).
 Proof.
   simpl. intros H. apply andb_true_iff in H. destruct H as [H _]. revert H.
   apply list_eqb_eq. apply outcome_eqb_eq. intros x y. apply String.eqb_eq.
@@ -36,14 +36,17 @@ Qed.
 
 Theorem judge_sound c : C15_guard c = true -> agrees c = true -> C15_ok c = true.
 Proof.
-  destruct c as [s keys dropkey sizes raw0 tok extra obs|ids sizes tok obs]; intros Hg Ha.
+  destruct c as [s keys dropkey sizes raw0 tok extra obs|ids sizes tok obs|kv listed]; intros Hg Ha.
   - rewrite (agrees_keys _ _ _ _ _ _ _ _ Ha). simpl in Hg.
     apply andb_true_iff in Hg. destruct Hg as [Hg Hex].
     apply andb_true_iff in Hg. destruct Hg as [Hg Hf]. apply andb_true_iff in Hg. destruct Hg as [Hwf H32].
-    apply key_model_ok; auto; [apply all_cfg_ok|apply Z.ltb_lt; exact Hf|apply is_byte_b_spec; exact Hex].
+    rewrite all_resort. rewrite ids_wf_fast_spec in Hwf.
+    apply list_model_ok; auto; [apply all_cfg_ok|apply Z.ltb_lt; exact Hf|apply is_byte_b_spec; exact Hex].
   - rewrite (agrees_waste _ _ _ _ Ha). simpl in Hg.
     apply andb_true_iff in Hg. destruct Hg as [H32 Hf].
     apply waste_model_ok; auto. apply Z.ltb_lt; exact Hf.
+  - simpl in Ha. apply (list_eqb_eq String.eqb (fun x y => proj1 (String.eqb_eq x y))) in Ha. subst listed.
+    apply listing_model_ok. exact Hg.
 Qed.
 
 Corollary judge_zero c : C15_guard c = true -> agrees c = true -> judge c = 0.
